@@ -134,8 +134,10 @@ the failing case (see `known_findings.json`); a violation outside those predicat
   within 2.5 path tolerances times the total magnification instead of vertex by vertex.
 * Observations deliberately NOT demanded (counted in evidence): GDSII property order reversal on
   load (C01), -0.0 reading back as +0.0 and double rounding of ratio reals with operands above
-  2^53 (C19), unreduced Hobby constraint angles (C15), `element_center` index slip for tapered
-  simple paths (C07; documented as unsupported).
+  2^53 (C19), `element_center` index slip for tapered
+  simple paths (C07; documented as unsupported).  (Unreduced Hobby constraint angles were first only counted; the orientation
+  closure added for seeded/C15-10 showed that they make the interpolant depend on the heading of the construction - a genuine
+  defect, repaired as F15.)
 
 ### 10.5 Bounds actually completed (see evidence files for measured counts)
 
